@@ -11,7 +11,7 @@ TB_COMMON = "Trusted base: the harness itself (reference model named in the text
 CHECKS = {
     "C01": dict(cat="model_checking", design="§4 C01, §3.2, §3.3", engine=ENGINE,
                 technique="explicit-state exploration (layered parallel BFS keyed by the Debug rendering of the real Registry, cross-checked against stateright) of registration histories on the real Registry + exhaustive enumeration of all small type graphs x root sequences, builder histories and (registry, filter) pairs; invariant: dense and closed",
-                text="Every reachable state of: (a) all register_type / register_types / into_portable / map_into_portable histories over the 61-member static universe U1 to depth 3 (quick) / 4 (thorough) and over a 19-op core alphabet to depth 5 / 6; (b) every type graph of the U2 plans (all graphs up to 3 nodes, 4 thorough, incl. self and mutual recursion and parameter-only reachability) x every root sequence with repetition; (c) every builder history to depth 5/6; (d) every (registry, filter) pair of the C10 enumeration; and decode(encode(r)) of all of them, is checked for id == index, resolve agreement, Registry::types() keys in order, and closure of every mentioned id (fields, variant fields, params, sequence/array/compact element, tuple members, bit store/order).",
+                text="Every reachable state of: (a) all register_type / register_types / into_portable / map_into_portable histories over the 87-member static universe U1 to depth 3 (quick) / 4 (thorough) and over a 19-op core alphabet to depth 5 / 6; (a') long histories: every member of U1 plus four roots into a chain of 260 types registered in one history, for all 2n rotations and reversals, and U1+U3 (~1900 roots, ~1500 entries) for 16 / 32 orders; (b) every type graph of the U2 plans (all graphs up to 3 nodes, 4 thorough, incl. self and mutual recursion and parameter-only reachability) x every root sequence with repetition; (c) every builder history (13 values + finish()) to depth 5/6; (d) every (registry, filter) pair of the C10 enumeration incl. the large registries (chains, star, tree of up to 130 / 1030 entries); and decode(encode(r)) of all of them, is checked for id == index, resolve agreement, Registry::types() keys in order, and closure of every mentioned id (fields, variant fields, params, sequence/array/compact element, tuple members, bit store/order).",
                 note="refs() is the independent visitor of every id position."),
     "C02": dict(cat="model_checking", design="§4 C02", engine=ENGINE,
                 technique="explicit-state exploration of registration histories (U1, stateright) and exhaustive type-graph enumeration (U2) with a co-inductive image check against MetaType::type_info()",
@@ -19,7 +19,7 @@ CHECKS = {
                 note="The same image check runs over every definition of the generated derive- and built-in-grammar corpora (each registered alone); termination of registration is observed (an engine crash is attributed by registering each universe member in its own process)."),
     "C03": dict(cat="exploration", design="§4 C03, §3.5", engine=PROGS,
                 technique="exhaustive enumeration of a bounded grammar of type definitions (base shapes x overlays, deviation-bounded) compiled by rustc against /repo, x every value of boundary leaf domains; oracle: schema-directed reference decoder that knows only the PortableRegistry",
-                text="~4.4k (quick) / ~36k (thorough) definitions deriving TypeInfo and Encode: every base shape with every single codec/scale_info overlay at every position and overlay pairs (triples thorough) on representative bases, incl. skip, compact, index, encoded_as, explicit discriminants (c-like and #[repr(u8)] with fields), PhantomData members, recursion, generics; for each, all-default / all-last / every single-member deviation over the member's whole value domain. value.encode() must be consumed exactly by the reference decoder and yield the generator's expected tree (variant name and index, member names and order, leaf values); first byte == metadata index; no duplicate indices.",
+                text="~7.5k (quick) / ~56k (thorough) definitions deriving TypeInfo and Encode: every base shape with every single codec/scale_info overlay at every position and overlay pairs (triples thorough) on representative bases, incl. skip, compact, index and discriminants in every integer-literal spelling, encoded_as (compact and a user-defined EncodeAsRef type), attributes of another derive, PhantomData members directly and nested (Option / Vec / array / tuple of PhantomData), parenthesised member types, recursion, generics, a plain sibling type in every module; for each, all-default / all-last / every single-member deviation over the member's whole value domain. value.encode() must be consumed exactly by the reference decoder and yield the generator's expected tree (variant name and index, member names and order, leaf values); first byte == metadata index; no duplicate indices.",
                 note="valuetree implements the public SCALE rules only; the generator carries its own model of each definition."),
     "C09": dict(cat="exploration", design="§4 C09, §3.5", engine=PROGS,
                 technique="exhaustive enumeration of the derive grammar compiled twice (docs feature off and on); oracle: the generator's own model of the declaration",
@@ -35,19 +35,19 @@ CHECKS = {
                 note="Expected trees are written in the generator from the documented shape (e.g. BTreeMap = composite of one sequence of (K,V) tuples in key order; Duration = (u64, u32); NonZero = composite of the integer; Option None=0/Some=1; PhantomData members vanish)."),
     "C05": dict(cat="model_checking", design="§4 C05", engine=ENGINE,
                 technique="explicit-state exploration of registration histories with repetition over all alias families (U1, stateright) and all small type graphs (U2); oracle: hand-assigned identity labels, closure size, evaluation counters, no-op re-registration",
-                text="Over the same histories: (i) two registered universe members get the same id iff their hand-assigned model identity is the same (every Box/Rc/Arc/&/&mut/Vec/VecDeque/slice/String/str/PhantomData alias family incl. wrappers of wrappers, and same-constructor-different-argument families); (ii) entry count equals the number of distinct identities reachable (from the U2 specification for graphs, from type_info() graphs for U1); (iii) registering anything already present, as root or sub-type, returns the old id and leaves Debug(registry) byte-identical; (iv) thread-local counters in hand-written impls and in every U2 node show each definition evaluated at most once per registry.",
+                text="Over the same histories: (i) two registered universe members get the same id iff their hand-assigned model identity is the same (every Box/Rc/Arc/&/&mut/Vec/VecDeque/slice/String/str/PhantomData alias family incl. wrappers of wrappers, and same-constructor-different-argument families); (ii) entry count equals the number of distinct identities reachable (from the U2 specification for graphs, from type_info() graphs for U1); (iii) registering anything already present, as root or sub-type, returns the old id and leaves Debug(registry) byte-identical; (iv) thread-local counters in hand-written impls (also reached through Compact, Option, arrays, tuples, BTreeMap and a derived generic) and in every U2 node show each definition evaluated at most once per registry; (v) rebuilding every explored registry through PortableRegistryBuilder (with a finish() in the middle) merges two entries iff their definitions are identical; the same oracle runs after every registration of the long histories (U1 + chain of 260 types, all rotations; U1+U3, ~1500 entries).",
                 note="Model identity labels of U1 are assigned by hand from the documented rule; the U1 closure for (ii) is keyed by the library's TypeId (C16 checks that notion separately)."),
     "C10": dict(cat="model_checking", design="§4 C10", engine=ENGINE,
                 technique="exhaustive enumeration of all well-formed registries up to n entries over a definition-shape x parameter-list alphabet x all 2^n filters, against an independent reachability / bijection / substitution oracle",
-                text="All registries with n<=2 entries complete over 9 definition shapes x 5 parameter-list shapes with every reference in 0..n; n=3 over all definition shapes, n=3 parameter-focused (quick); plus n=3 with parameters and n=4 over six kinds (thorough); each with all 2^n filters. Oracle: map keys == independently computed reachable set, values a bijection onto 0..k, result dense and closed, every retained entry == original with ids substituted through the map and id == map[old].",
+                text="All registries with n<=2 entries complete over 9 definition shapes x 5 parameter-list shapes with every reference in 0..n; n=3 over all definition shapes, n=3 parameter-focused (quick); plus n=3 with parameters and n=4 over six kinds (thorough); each with all 2^n filters x three predicate kinds (pure, consuming, budget) on plans of up to 2M registries; plus large registries (forward / backward chain through every definition kind, star, binary tree; 70 and 130 entries, thorough 260 and 1030) with single-id, every-second-id and keep-all filters. Oracle: map keys == independently computed reachable set, values a bijection onto 0..k, result dense and closed, every retained entry == original with ids substituted through the map and id == map[old].",
                 note="A state is a registry, a transition one retain call on a fresh clone."),
     "C11": dict(cat="model_checking", design="§4 C11", engine=ENGINE,
                 technique="explicit-state exploration of registration histories (stateright) checking prefix stability on every transition, replay determinism on every history, and all permutations of every root set up to canonical renumbering",
-                text="Every transition of the U1 and U2 explorations: the snapshot of Registry::types() before an operation is an entry-for-entry prefix of the snapshot after it; every history is replayed and must give byte-identical encodings; for every U2 graph every permutation of every root subset (size 2..4) must give the same registry after rooted canonical renumbering (no particular numbering is demanded).",
+                text="Every transition of the U1 and U2 explorations: the snapshot of Registry::types() before an operation is an entry-for-entry prefix of the snapshot after it; every history is replayed and must give byte-identical encodings; for every U2 graph every permutation of every root subset (size 2..4) and for U1 every pair (triples / quadruples over the core) must give the same registry after rooted canonical renumbering (no particular numbering is demanded); PortableRegistry::from(state) before / after every transition and every id handed out earlier are compared as well; long histories (all of U1 + a chain of 260 types in every rotation, U1+U3 in 16 / 32 orders) check prefix stability after every registration and equality up to renaming with the declaration order.",
                 note="Canonical renumbering = DFS from the roots in a fixed order following refs() positionally."),
     "C12": dict(cat="model_checking", design="§4 C12", engine=ENGINE,
                 technique="explicit-state exploration (layered parallel BFS with visited set, cross-checked against stateright) of all operation sequences on the real PortableRegistryBuilder and Interner against a duplicate-free Vec model, observations evaluated in every state",
-                text="All register_type sequences to depth 7 (quick) / 9 (thorough) over a 9-value alphabet (two values depend on the current state through next_type_id; four differ from another value in exactly one slot: docs, path, params), and all intern_or_get sequences to depth 12 / 14 over 4 values on Interner<u32> and Interner<&str>; in every state next_type_id, get(i) for i in {0,1,2,len-1,len,len+1,u32::MAX}, finish, get(&v), resolve of every symbol up to len+2 (via a foreign interner) and elements are compared with the Vec model.",
+                text="All operation sequences to depth 6 (quick) / 8 (thorough) over 14 operations (register_type of 13 values — three depend on the current state through next_type_id incl. forward references, five differ from another value in exactly one slot: docs, path, params, listing order of variants — and finish() in the middle), and all intern_or_get sequences to depth 12 / 14 over 4 values; long tables: growth to 70 / 300 distinct values (the first eight with colliding polynomial hashes) in three insertion orders with every present value re-registered in every state; in every state next_type_id, get(i) for i in {0,1,2,len-1,len,len+1,u32::MAX}, finish, get(&v), resolve of every symbol up to len+2 (via a foreign interner) and elements are compared with the Vec model.",
                 note="State key = Debug rendering of the real object; stateright (1 thread and N threads) and the layered explorer must agree on state and transition counts at a smaller depth on every run."),
     "C06": dict(cat="exploration", design="§4 C06, §3.4", engine=ENGINE,
                 technique="bounded exhaustive enumeration of the PortableRegistry value space (regspace) against an independent V14 encoder/decoder (refscale)",
@@ -55,7 +55,7 @@ CHECKS = {
                 note="refscale is hand-written from the layout text of C06 and self-tested against literal vectors and the codec's compact integers over 0..2^17 and all class boundaries; values outside the boundary domains are assumed to behave like their size-class representative."),
     "C07": dict(cat="exploration", design="§4 C07, §3.4", engine=ENGINE,
                 technique="bounded exhaustive enumeration of registry values; round-trip, exact-consumption, determinism and a global encoding-collision table",
-                text="For every enumerated registry (well-formed or not): decode(encode(r)) == r with the input consumed exactly (also with 3 trailing-byte patterns), encoding twice is byte-identical, encoded_size agrees, and one global table bytes->registry over the whole space detects any shared encoding.",
+                text="For every enumerated registry (well-formed or not): decode(encode(r)) == r with the input consumed exactly (also with 3 trailing-byte patterns, from an IoReader, two registries back to back, through decode_all and the depth-limited entry points at 16 / 64 / 255), encoding twice / through encode_to / using_encoded / a reference is byte-identical, encoded_size agrees, and one global table bytes->registry over the whole space detects any shared encoding.",
                 note="Same value space as C06. Injectivity is checked over the enumerated space only."),
     "C08": dict(cat="exploration", design="§4 C08, §3.4", engine=ENGINE,
                 technique="bounded exhaustive enumeration of registry values against an independent builder/reader of the documented JSON shape (refjson)",
@@ -63,31 +63,31 @@ CHECKS = {
                 note="refjson is hand-written from the shape documented in the property and README; bit-sequence keys bit_store_type / bit_order_type are accepted as documented by the crate's own tests."),
     "C14": dict(cat="fault_enumeration", design="§4 C14", engine=ENGINE,
                 technique="exhaustive fault enumeration (all 1-fault and bounded 2-fault corruptions of valid encodings, all short byte strings, all value- and text-level JSON faults) run against the real decoders in child processes under a counting allocator",
-                text="For 19 seed encodings covering every definition kind: every truncation, bit flip, byte substitution, boundary-byte insertion, deletion, every compact-integer field overwritten with 18 compact patterns (size-class boundaries, 10^6, >u32, big-integer modes, non-minimal forms), all pairs of compact corruptions and of boundary substitutions on small seeds; all byte strings of length <= 2 (<= 3 thorough); JSON: every node replaced by 14 values, every key deleted / renamed / added, every text truncation and structural-character substitution, duplicated keys. Oracle per case: no panic, no abort (child process), peak allocation <= 256 KiB + 256 B per input byte, Ok => re-encode == consumed bytes, resolve is None (never panics) for out-of-range ids and answers for every id mentioned.",
+                text="For 19 seed encodings covering every definition kind: every truncation, bit flip, byte substitution, boundary-byte insertion, deletion, every compact-integer field overwritten with 18 compact patterns (size-class boundaries, 10^6, >u32, big-integer modes, non-minimal forms), all pairs of compact corruptions and of boundary substitutions on small seeds; all byte strings of length <= 2 (<= 3 thorough); every input also through decode_with_depth_limit, decode_all and an IoReader (no panic, same verdict); JSON: every node replaced by 14 values, every key deleted / renamed / added, every text truncation and structural-character substitution, duplicated keys. Oracle per case: no panic, no abort (child process), peak allocation <= 256 KiB + 256 B per input byte, Ok => re-encode == consumed bytes, resolve is None (never panics) for out-of-range ids and answers for every id mentioned.",
                 note="The memory bound is a measured inequality with generous constants; at most two simultaneous faults."),
     "C16": dict(cat="exploration", design="§4 C16", engine=ENGINE,
                 technique="exhaustive check of all ordered pairs of a generated table of type expressions (built-in constructors nested to depth 2 + U1) against a normal form computed from each type's source text",
-                text="~1.9k (quick) / ~3k (thorough) type expressions; for every ordered pair: == iff equal model normal form iff cmp == Equal iff equal type_id; partial_cmp consistent; cmp antisymmetric and transitive (sorted-order check); equal => equal DefaultHasher hash, equal Debug, equal type_info().",
+                text="~1.9k (quick) / ~3k (thorough) type expressions; for every ordered pair: == iff equal model normal form iff cmp == Equal iff equal type_id; partial_cmp consistent; cmp antisymmetric and transitive (sorted-order check); equal => equal DefaultHasher hash and equal type_info().",
                 note="Model identity = strip Box/Rc/Arc/&/&mut recursively at the top, Vec/VecDeque -> slice, String -> str, PhantomData<_> -> one identity, arguments untouched; computed by a small parser over stringify!(type). The universe crate is compiled without function merging."),
     "C17": dict(cat="exploration", design="§4 C17", engine=ENGINE,
                 technique="exhaustive enumeration of builder call scripts (every legal call order, both forms, docs feature off and on) against an echo model, plus a PhantomData scan of every definition reachable from the type corpora",
-                text="24k scripts per build: every permutation of field setters (ty|compact over 5 kinds incl. PhantomData, name, type_name, docs|docs_always), composites with 0-3 fields, every permutation of variant setters (index, fields, discriminant, docs), every permutation of type setters incl. setters before path and repeated setters; compile-time and portable builders; two builds (docs off / on). Oracle: the built Type equals the supplied parts in order minus PhantomData members, docs kept iff always-variant or feature on. Corpus: no field or tuple member of any definition reachable from U1 and the U3 table is a PhantomData (decided from the member's own definition).",
+                text="24k scripts per build: every permutation of field setters (ty|compact over 5 kinds incl. PhantomData, name, type_name, docs|docs_always), composites with 0-3 fields, every permutation of variant setters (index, fields, discriminant, docs), every permutation of type setters incl. setters before path; repeated setter calls on types, fields and variants (the last call is what was supplied); parameter lists through TypeParameter::new and the two macros, compared with literals; compile-time and portable builders; two builds (docs off / on). Oracle: the built Type equals the supplied parts in order minus PhantomData members, docs kept iff always-variant or feature on. Corpus: no field or tuple member of any definition reachable from U1 and the U3 table is a PhantomData (decided from the member's own definition), and every derive-corpus definition lists exactly its members that are neither skipped nor PhantomData (members that merely contain PhantomData stay).",
                 note="The PhantomData scan also runs over every definition of the generated derive- and built-in-grammar corpora."),
     "C18": dict(cat="exploration", design="§4 C18", engine=ENGINE,
                 technique="exhaustive enumeration of all strings up to a length bound over a class-representative alphabet, all segment lists and replacement tables over representatives, against a hand-written DFA and list model",
-                text="All strings of length <= 7 (quick) / 8 (thorough) over a 10-symbol class-representative alphabet as single segments; all segment lists of length <= 3 (4) over 11 representative segments; Path::new over all ident x module-path combinations; new_with_replace over all replacement tables of <= 2 (3) entries. Oracle: DFA for (r#)?[A-Za-z_][A-Za-z0-9_]* and a list model for order / ident / namespace / display / first offending position / panic-iff-error.",
+                text="All strings of length <= 7 (quick) / 8 (thorough) over a 10-symbol class-representative alphabet and all strings of length 1 and 2 over the 128 ASCII characters (alone, behind r#, as a tail) as single segments, each through five iterator shapes; all segment lists of length <= 3 (4) over 11 representative segments; Path::new over all ident x module-path combinations; new_with_replace over all replacement tables of <= 2 (3) entries. Oracle: DFA for (r#)?[A-Za-z_][A-Za-z0-9_]* and a list model for order / ident / namespace / display / first offending position / panic-iff-error.",
                 note="One representative per character class (lower, upper, underscore, digit, 'r', '#', ':', space, '-', non-ASCII); longer strings and other characters of the same class are assumed equivalent."),
     "C15": dict(cat="exploration", design="§4 C15", engine="gen/features.py (fingerprint binary per feature set)",
                 technique="exhaustive enumeration of the crate's feature configurations (all 48 distinct subsets in thorough, a 9-set pairwise cover in quick), one fingerprint binary per configuration over a fixed corpus, byte comparison",
-                text="A fingerprint binary registering 518 derived definitions (docs everywhere, every attribute overlay), ~600 built-in type expressions, hand-written impls with feature-gated and always docs and odd type-name whitespace, and (with bit-vec) 144 BitVec types is built against /repo under every feature set; encode(PortableRegistry) per section must be byte-identical across all sets with equal docs setting, and across the docs setting after blanking every docs list (decoded / re-encoded by the independent refscale).",
+                text="A fingerprint binary registering ~1080 (thorough ~2000) derived definitions — one representative per (overlay kinds x shape) stratum of the derive grammar, each behind a plain sibling type of the same module — ~600 built-in type expressions, hand-written impls with feature-gated and always docs, odd type-name whitespace and user-defined bit-order markers, a run-time PortableRegistryBuilder section with doc-only twins, retain results, and (with bit-vec) 144 BitVec types is built against /repo under every feature set; encode(PortableRegistry) per section must be byte-identical across all sets with equal docs setting, and across the docs setting after blanking every docs list (decoded / re-encoded by the independent refscale); a program that completes in one feature set and dies in another is a violation.",
                 note="derive is always on; schema implies std; the no_std build is linked into a std binary."),
     "C19": dict(cat="exploration", design="§4 C19", engine="gen/schema.py (vengine --features schema + python jsonschema)",
                 technique="exhaustive enumeration of the registry value space serialised under the schema feature and validated against schema_for!(PortableRegistry) with an independent Draft-7 validator, with liveness controls",
-                text="~420k entries (quick) / several million (thorough) of regspace serialised by the library's own serde impls are validated entry by entry in two feature configurations (schema with and without bit-vec), plus whole documents (the empty registry produced three ways, every U1 registry, retain results); six known-invalid control documents must be rejected or the run is a machinery error.",
+                text="~420k entries (quick) / several million (thorough) of regspace serialised by the library's own serde impls are validated entry by entry in two feature configurations (schema with and without bit-vec), plus the length ladder (every list-valued slot at 0..257 / 16384 elements, numeric extremes) and whole documents (the empty registry produced three ways, every U1 registry, retain results); the schema is generated twice with the component types' schemas in between and must not change; six known-invalid control documents must be rejected or the run is a machinery error.",
                 note="python jsonschema Draft7Validator is trusted; schemars 0.8 generates the schema."),
     "C20": dict(cat="exploration", design="§4 C20, §3.7", engine="gen/negative.py (rustc per program)",
                 technique="exhaustive enumeration of a negative grammar: each ill-formed construction in every builder position / attribute combination compiled on its own by rustc, paired with a well-formed twin",
-                text="600 (quick) / ~800 (thorough) programs: type without path, variant without index, field without type, named among unnamed and vice versa, field on unit fields — every interleaving with the optional setters, compile-time and portable builders, struct and variant contexts; derive: unions, unknown container attributes at every position, a repeated bounds / skip_type_params / capture_docs / crate within one list and across two or three lists, invalid capture_docs values, bounds leaving a non-skipped parameter unbound. Verdict per pair: the ill-formed program is rejected while the twin (differing only in the offending construct) is accepted.",
+                text="~940 (quick) / ~1100 (thorough) programs: type without path, variant without index, field without type, named among unnamed and vice versa, field on unit fields — every interleaving with the optional setters, compile-time and portable builders, struct and variant contexts, and every source of a builder value (closure argument, fresh constructor with inferred / hole / explicit state, Default::default() inferred / explicit) in every sink; derive: unions, unknown container attributes at every position, a repeated bounds / skip_type_params / capture_docs / crate within one list and across two or three lists, invalid capture_docs values, bounds leaving a non-skipped parameter unbound (incl. parameters bounded only by the item's own generics or where clause, or used only by skipped members). Verdict per pair: the ill-formed program is rejected while the twin (differing only in the offending construct) is accepted.",
                 note="Field- and variant-level unknown scale_info attributes are outside the property (container attribute parser only) and not demanded. The diagnostic class is recorded, not demanded."),
 }
 
